@@ -28,6 +28,7 @@ import (
 	"github.com/olive-io/bpmn/v2/pkg/event"
 	"github.com/olive-io/bpmn/v2/pkg/id"
 	"github.com/olive-io/bpmn/v2/pkg/tracing"
+	"github.com/olive-io/bpmn/v2/pkg/verifhook"
 )
 
 // ProcessLandMarkTrace denotes instantiation of a given sub process
@@ -577,6 +578,7 @@ func (sp *subProcess) run(ctx context.Context, out tracing.ITracer) {
 					}
 
 					traces := sp.subTracer.Subscribe()
+					verifhook.Point("sub.subscribed")
 					defer sp.subTracer.Unsubscribe(traces)
 				loop:
 					for {
